@@ -513,9 +513,24 @@ func TestC16Generators(t *testing.T) {
 			anchors = append(anchors, Case{Gen: "balanced", N: d, Rooted: r, Seed: 1})
 		}
 	}
+	// sizes around the 2000-element capacities that the tree code preallocates for its tip, node and
+	// edge lists (and a recursion 2000 levels deep for the caterpillar), spread over the shards
+	k := 0
+	for _, g := range []string{"caterpillar", "yule", "uniform", "star"} {
+		for _, n := range []int{1000, 1999, 2000, 2001, 2002, 2100, 4100} {
+			if g != "caterpillar" && n != 2001 && n != 4100 {
+				continue
+			}
+			for _, r := range []bool{false, true} {
+				if k++; k%h.NShards() == h.Shard() {
+					anchors = append(anchors, Case{Gen: g, N: n, Rooted: r, Seed: int64(n)})
+				}
+			}
+		}
+	}
 	h.Run(t, h.Spec[Case]{
 		Property: "C16", Name: "generators", Quick: 12000, Thorough: 320000,
-		Rule: "6 generators (uniform, Yule, caterpillar, balanced, star, star from names) x sizes -1..60 (thorough 400; depth -1..7/10) with a quarter of the cases at -1..4 x rooted x seed; valid sizes must succeed and give a structurally well-formed binary tree (root degree 2 or 3 as requested) with exactly n uniquely named tips, all lengths present and >= 0, TipIndex/bitsets/TopoDepth, split hashes (each branch found in a split index built from the tree's own text) and (unrooted trees) node depths correct without further calls, caterpillar (inner nodes form a path) / perfectly balanced / single-inner-node shape; sizes below the documented minimum must be refused with an error; 2 tips unrooted (no binary unrooted tree exists) may be refused or not but must not crash; 5% of the cases through `gotree generate ... --seed -n -l/-d [-r]`, half of them with -o file (exit status, number of trees, shape, no Go panic trace); non-trivial = valid size with >= 5 tips",
+		Rule: "6 generators (uniform, Yule, caterpillar, balanced, star, star from names) x sizes -1..60 (thorough 400; depth -1..7/10) with a quarter of the cases at -1..4 x rooted x seed, plus constructed cases of 1000..4100 tips (caterpillar at 1999, 2000, 2001, 2002: the capacity the code preallocates for its lists); valid sizes must succeed and give a structurally well-formed binary tree (root degree 2 or 3 as requested) with exactly n uniquely named tips, all lengths present and >= 0, TipIndex/bitsets/TopoDepth, split hashes (each branch found in a split index built from the tree's own text) and (unrooted trees) node depths correct without further calls, caterpillar (inner nodes form a path) / perfectly balanced / single-inner-node shape; sizes below the documented minimum must be refused with an error; 2 tips unrooted (no binary unrooted tree exists) may be refused or not but must not crash; 5% of the cases through `gotree generate ... --seed -n -l/-d [-r]`, half of them with -o file (exit status, number of trees, shape, no Go panic trace); non-trivial = valid size with >= 5 tips",
 		Gen: genCase, Check: check, Anchors: anchors,
 		Classify: func(c Case) (bool, []string) {
 			e := expectation(c)
@@ -633,7 +648,7 @@ func checkEnum(c EnumCase) (int, error) {
 }
 
 func TestC16Enumerator(t *testing.T) {
-	r := h.NewRecorder(t, "C16", "enumerator", "AllTopologies(n, rooted) for every n from 0 up to the largest n with <= 10395 (quick) / 135135 (thorough) topologies, default and caller-given tip names: count = (2n-5)!! unrooted / (2n-3)!! rooted, every tree binary on the requested names, canonical forms (split sets / nested clades of the reference reading) pairwise distinct; sizes below the minimum refused; name lists of another length than n (1, n-1, n+1, 2n names) refused or else the complete enumeration on n tips, never a crash; plus `gotree generate topologies -l n [-r]` for n <= 6; non-trivial = enumeration with >= 15 topologies")
+	r := h.NewRecorder(t, "C16", "enumerator", "AllTopologies(n, rooted) for every n from 0 up to the largest n with <= 10395 (quick) / 135135 (thorough) topologies, default and caller-given tip names (plain ones, and distinct names that differ by case only, hold a blank, look like equal numbers or carry quotes): count = (2n-5)!! unrooted / (2n-3)!! rooted, every tree binary on the requested names, canonical forms (split sets / nested clades of the reference reading) pairwise distinct; sizes below the minimum refused; name lists of another length than n (1, n-1, n+1, 2n names) refused or else the complete enumeration on n tips, never a crash; plus `gotree generate topologies -l n [-r]` for n <= 6; non-trivial = enumeration with >= 15 topologies")
 	var c EnumCase
 	if replaying, mine := r.ReplayCase(&c); replaying {
 		if mine {
@@ -658,14 +673,21 @@ func TestC16Enumerator(t *testing.T) {
 			if want > limit {
 				break
 			}
-			for _, named := range []bool{false, true} {
+			for _, style := range []int{0, 1, 2} {
+				named := style > 0
 				c := EnumCase{N: n, Rooted: rooted}
 				if named {
 					if n > 7 {
 						continue
 					}
 					for i := 0; i < n; i++ {
-						c.Names = append(c.Names, fmt.Sprintf("n%d", (i*5+3)%n*10+i))
+						if style == 2 {
+							// distinct names that loose comparisons confuse: same letters in another case, a
+							// blank inside, labels that look like (equal) numbers, quotes, one name prefix of another
+							c.Names = append(c.Names, []string{"abc1", "ABC1", "a b", "1", "01", "'q r'", "Abc1", "1.0", "abc", "a  b"}[(i*3+n)%10])
+						} else {
+							c.Names = append(c.Names, fmt.Sprintf("n%d", (i*5+3)%n*10+i))
+						}
 					}
 					if n == 0 {
 						continue
@@ -680,7 +702,7 @@ func TestC16Enumerator(t *testing.T) {
 					r.Fail(c, "%v", err)
 					return
 				}
-				if named && n <= 6 {
+				if style == 1 && n <= 6 {
 					// name lists of another length than the requested size: refused, or ignored - never a
 					// crash or a partial enumeration
 					for _, k := range []int{1, n - 1, n + 1, 2 * n} {
